@@ -105,6 +105,10 @@ def run_case(case, tier):
             out.events["c07:rebuild-after-edit"] += 1
             if m.oob_used or hist.has_nested_csum(m):
                 pass
+        # (what the implementation's single-round out-of-band settle would execute: known finding D12, exactly)
+        m1 = None
+        if hist.has_nested_csum(m):
+            m1 = set(frozenset(k for k, _ in o) for o in m.single_round_outcomes(case["kind"], ts))
         ok_model = m.cmd_redo(ts) if case["kind"] == "redo" else m.cmd_ifchange(ts)
         requesters = {}
         for dof, spec in case["project"]["dofiles"].items():
@@ -147,8 +151,14 @@ def run_case(case, tier):
             return out
         if set(r.tl.starts) != set(m.executed):
             nested = hist.has_nested_csum(m)
+            if m1 is not None and set(m.executed) < set(r.tl.starts) and frozenset(r.tl.starts) in m1:
+                # exactly the over-build of the single-round settle: C02/C03's known finding D12, not a schedule effect
+                out.violation = {"property": "C02", "clause": "exec-set", "step": 0, "detail": dict(ctx),
+                                 "sig": {"symptom": "extra", "nested_csum": True}}
+                return out
             out.violation = {"property": "C07", "clause": "executed-set-differs-from-serial", "step": 0,
-                             "detail": dict(ctx), "sig": {"symptom": "exec-set", "nested_csum": nested}}
+                             "detail": dict(ctx), "sig": {"symptom": "exec-set", "nested_csum": False,
+                                                          "nested_csum_project": nested}}
             return out
         bad = []
         for p_, f in m.fs.items():
@@ -182,7 +192,7 @@ def run_case(case, tier):
                              "sig": {"symptom": "db-state", "deps_only": not diff_f,
                                      "extra_edges_all_within_closure": within,
                                      "out_of_band": bool(m.oob_used) or "@@REDO:check:" in text
-                                     or "@@REDO:check:" in sr.text()}}
+                                     or "@@REDO:check:" in sr.text() or oob_in_logs(r.disk) or oob_in_logs(serial)}}
             return out
         # (4) a following redo-ifchange runs nothing but always-targets, in the parallel tree
         r.disk.take_trace()
@@ -198,6 +208,24 @@ def run_case(case, tier):
         r.close()
         if serial is not None:
             shutil.rmtree(serial.base, ignore_errors=True)
+
+
+def oob_in_logs(disk):
+    """With log capture on, the `check` record of an out-of-band settle started by a NESTED redo-ifchange goes to the
+    log file of the target whose script made the call, not to the top-level's stderr."""
+    d = os.path.join(disk.root, ".redo")
+    try:
+        names = [n for n in os.listdir(d) if n.startswith("log.")]
+    except OSError:
+        return False
+    for n in names:
+        try:
+            with open(os.path.join(d, n), "rb") as f:
+                if b"@@REDO:check:" in f.read():
+                    return True
+        except OSError:
+            pass
+    return False
 
 
 class Spec:
